@@ -28,6 +28,26 @@ MC = {
 }
 
 
+MODEL_MUTANTS = ["BugPtr", "BugWait", "BugListen", "ackstale", "ackany", "clearstale", "sendstale", "noclearattach", "bumpnoncur", "wantleak"]
+
+
+def directed(ctx):
+    """shortest behaviours in which each model mutant violates a design invariant (RelayDir.tla), to be replayed on the real relay"""
+    from concurrent.futures import ThreadPoolExecutor
+    import re as _re
+
+    def one(m):
+        r = ctx.tlc("MC_RelayDir", cfg="MC_RelayDir.cfg", workers=1, timeout=600, env={"MUT": m}, expect_ok=False, count=False)
+        hs = _re.findall(r'<<"HIST", "(.*)">>', r.out)
+        if not hs:
+            raise vlib.Infra("model mutant %s: TLC found no counterexample (directed scenario missing)\n%s" % (m, r.out[-1500:]))
+        return m, json.loads(hs[0].encode().decode("unicode_escape"))
+    with ThreadPoolExecutor(max_workers=8) as ex:
+        res = list(ex.map(one, MODEL_MUTANTS))
+    ctx.cov["directed_scenarios"] = {m: len(b) for m, b in res}
+    return [b for m, b in res]
+
+
 def split_traces(rows):
     out, cur = [], None
     for r in rows:
@@ -57,10 +77,12 @@ def run(ctx):
         ctx.notes.append("%s: %d distinct states, %d generated, depth %d, %.0fs" % (mc, r.distinct, r.generated, r.depth, r.wall))
     # 2. behaviours from TLC (three generator configs: session focus, listen focus, mixed)
     per = 5 if tier == "quick" else 60
-    plan = {"C24": [("MC_RelayGenL", 3 * per, 12), ("MC_RelayGen", per, 14)],
+    plan = {"C24": [("MC_RelayGenL", 2 * per, 12), ("MC_RelayGenW", 3 * per, 9), ("MC_RelayGen", per, 14)],
+            "C21": [("MC_RelayGenA", 4 * per, 12), ("MC_RelayGenM", 2 * per, 14), ("MC_RelayGenS", per, 12)],
             "C25": [("MC_RelayGenS", 2 * per, 10), ("MC_RelayGenL", 2 * per, 10), ("MC_RelayGen", per, 14)]}.get(
         prop, [("MC_RelayGenS", 3 * per, 12), ("MC_RelayGenS", per, 7), ("MC_RelayGen", per, 14)])
-    behs = []
+    behs = directed(ctx)
+    ndirected = len(behs)
     for cfg, num, maxstim in plan:
         b, r = ctx.tlc_behaviours("MC_RelayGen", cfg + ".cfg", num=num, depth=300, timeout=1500, workers=8,
                                   env={"MAXSTIM": maxstim}, marker="HIST")
@@ -115,6 +137,18 @@ def run(ctx):
 def strict(ctx, tpath):
     if not os.path.exists(os.path.join(ctx.specdir, "MC_RelayTrace.tla")):
         return
+    # behaviours in which the driver held a stream back (scheduler gate) split one loop iteration of the real relay
+    # across checkpoints; the strict spec treats an iteration as atomic, so those are validated by the observer only
+    rows, keep, cur = vlib.read_ndjson(tpath), [], []
+    for r in rows + [{"e": "reset"}]:
+        if r["e"] == "reset":
+            if cur and not any(x["e"] in ("hold", "release") for x in cur):
+                keep += cur
+            cur = []
+        cur.append(r)
+    tpath = tpath + ".strict"
+    vlib.write_ndjson(tpath, keep)
+    ctx.cov["strict_traces"] = sum(1 for r in keep if r["e"] == "reset")
     ok, r = ctx.tlc_validate("MC_RelayTrace", "MC_RelayTrace.cfg", tpath, timeout=1800)
     ctx.cov["strict_conformance"] = "accepted" if ok else "SPEC-DRIFT"
     if not ok:
